@@ -354,9 +354,14 @@ func (p *PHYPayload) DecryptJoinAcceptPayload(key AES128Key) error {
 		block.Encrypt(pt[offset:offset+16], ct[offset:offset+16])
 	}
 
-	p.MACPayload = &JoinAcceptPayload{}
+	// decode first: when this fails the frame stays as it was received
+	ja := &JoinAcceptPayload{}
+	if err := ja.UnmarshalBinary(p.isUplink(), pt[0:len(pt)-4]); err != nil {
+		return err
+	}
+	p.MACPayload = ja
 	copy(p.MIC[:], pt[len(pt)-4:len(pt)]) // set the decrypted MIC
-	return p.MACPayload.UnmarshalBinary(p.isUplink(), pt[0:len(pt)-4])
+	return nil
 }
 
 // EncryptFOpts encrypts the FOpts with the given key.
@@ -405,7 +410,14 @@ func (p *PHYPayload) DecryptFOpts(nwkSEncKey AES128Key) error {
 		return err
 	}
 
-	return p.DecodeFOptsToMACCommands()
+	if err := p.DecodeFOptsToMACCommands(); err != nil {
+		// the frame stays as it was received: undo the decryption
+		if e := p.EncryptFOpts(nwkSEncKey); e != nil {
+			return e
+		}
+		return err
+	}
+	return nil
 }
 
 // EncryptFRMPayload encrypts the FRMPayload with the given key.
@@ -449,12 +461,19 @@ func (p *PHYPayload) DecryptFRMPayload(key AES128Key) error {
 
 	// the FRMPayload contains MAC commands, which we need to unmarshal
 	// (an empty FRMPayload holds no commands: there is nothing to decode)
-	var err error
 	if macPL.FPort != nil && *macPL.FPort == 0 && len(macPL.FRMPayload) != 0 {
-		macPL.FRMPayload, err = decodeDataPayloadToMACCommands(p.isUplink(), macPL.FRMPayload)
+		cmds, err := decodeDataPayloadToMACCommands(p.isUplink(), macPL.FRMPayload)
+		if err != nil {
+			// the frame stays as it was received: undo the decryption
+			if e := p.EncryptFRMPayload(key); e != nil {
+				return e
+			}
+			return err
+		}
+		macPL.FRMPayload = cmds
 	}
 
-	return err
+	return nil
 }
 
 // DecodeFRMPayloadToMACCommands decodes the (decrypted) FRMPayload bytes into
@@ -471,9 +490,13 @@ func (p *PHYPayload) DecodeFRMPayloadToMACCommands() error {
 		return nil
 	}
 
-	var err error
-	macPL.FRMPayload, err = decodeDataPayloadToMACCommands(p.isUplink(), macPL.FRMPayload)
-	return err
+	// on an error the FRMPayload stays as it was
+	cmds, err := decodeDataPayloadToMACCommands(p.isUplink(), macPL.FRMPayload)
+	if err != nil {
+		return err
+	}
+	macPL.FRMPayload = cmds
+	return nil
 }
 
 // DecodeFOptsToMACCommands decodes the (decrypted) FOpts bytes into
@@ -488,9 +511,13 @@ func (p *PHYPayload) DecodeFOptsToMACCommands() error {
 		return nil
 	}
 
-	var err error
-	macPL.FHDR.FOpts, err = decodeDataPayloadToMACCommands(p.isUplink(), macPL.FHDR.FOpts)
-	return err
+	// on an error the FOpts stay as they were
+	cmds, err := decodeDataPayloadToMACCommands(p.isUplink(), macPL.FHDR.FOpts)
+	if err != nil {
+		return err
+	}
+	macPL.FHDR.FOpts = cmds
+	return nil
 }
 
 // MarshalBinary marshals the object in binary form.
